@@ -8,6 +8,9 @@
 * `WirePair`          a client ApplicationIOController stack and a device Application stack
                       (ReadWritePropertyServices + LocalDeviceObject, vendorIdentifier 999) on one controlled LAN
                       in perfect-network mode, wired like tests/test_service/helpers.py
+                      `WirePair(cov=True)`: the device also offers ChangeOfValueServices (it is an
+                      ApplicationIOController then, the notifications are its own requests); the client
+                      subscribes / renews / cancels with SubscribeCOV and consumes the notifications
 """
 import bv  # noqa: F401
 from bacpypes.comm import bind
@@ -17,16 +20,17 @@ from bacpypes.app import Application, ApplicationIOController
 from bacpypes.appservice import StateMachineAccessPoint, ApplicationServiceAccessPoint
 from bacpypes.netservice import NetworkServiceAccessPoint, NetworkServiceElement
 from bacpypes.service.object import ReadWritePropertyServices
+from bacpypes.service.cov import ChangeOfValueServices
 from bacpypes.local.device import LocalDeviceObject
 from bacpypes.local import object as local_object
 from bacpypes.object import register_object_type
 from bacpypes.vlan import Node
 from bacpypes.primitivedata import (Null, Real, Double, Unsigned, Integer, CharacterString, OctetString,
-                                    BitString, Date, Time)
+                                    BitString, Date, Time, Enumerated)
 from bacpypes.basetypes import BinaryPV, DoorValue, DateTime, PriorityArray, PriorityValue
 from bacpypes.constructeddata import Any
 from bacpypes.apdu import (WritePropertyRequest, ReadPropertyRequest, ReadPropertyACK, SimpleAckPDU,
-                           Error, RejectPDU, AbortPDU)
+                           SubscribeCOVRequest, Error, RejectPDU, AbortPDU)
 
 from bv.engine import vclock
 from bv.engine.ctlnet import Wire, CtlNetwork
@@ -77,6 +81,33 @@ def to_encodable(domain, v):
     if domain == "datetime":
         return DateTime(date=v[0], time=v[1])
     return ATOMIC[domain](to_py(domain, v))
+
+
+def to_priority_value(domain, choice, v):
+    """abstract value -> the BACnetPriorityValue carrying it (what an element of the priority array is on the wire)"""
+    if v is cmdref.NULL:
+        return PriorityValue(null=())
+    if domain == "datetime":
+        return PriorityValue(datetime=DateTime(date=v[0], time=v[1]))
+    if domain in ("binary", "door"):
+        return PriorityValue(enumerated=v)                  # the number, an Enumerated on the wire
+    return PriorityValue(**{choice: to_py(domain, v)})
+
+
+def invalid_py(tagged):
+    """(datatype tag, content) of cmdref.INVALID -> what a caller of the property interface would hand over"""
+    tag, content = tagged
+    if tag == "bits":
+        return list(content)
+    return content
+
+
+def invalid_encodable(tagged):
+    """(datatype tag, content) of cmdref.INVALID -> application-tagged object for Any.cast_in"""
+    tag, content = tagged
+    if tag == "enum":
+        return Enumerated(content)
+    return ATOMIC[tag](invalid_py(tagged))
 
 
 def from_py(domain, x):
@@ -156,11 +187,13 @@ def other_properties(obj):
 
 # ------------------------------------------------------------------------------------ objects
 
-def make_object(name, domain, instance=1, min_on=None, min_off=None, explicit_array=False):
+def make_object(name, domain, instance=1, min_on=None, min_off=None, explicit_array=False, status_flags=False):
     cls = cmd_class(name)
     dflt = cmdref.DOMAINS[domain]["default"]
     kwargs = dict(objectIdentifier=(cls.objectType, instance), objectName="cmd%d" % instance,
                   presentValue=to_py(domain, dflt), relinquishDefault=to_py(domain, dflt))
+    if status_flags:
+        kwargs["statusFlags"] = [0, 0, 0, 0]        # reported in every COV notification
     if explicit_array:
         kwargs["priorityArray"] = PriorityArray()
     if min_on is not None:
@@ -192,8 +225,20 @@ class DeviceApp(Application, ReadWritePropertyServices):
     _startup_disabled = True
 
 
+class CovDeviceApp(ApplicationIOController, ReadWritePropertyServices, ChangeOfValueServices):
+    _startup_disabled = True
+
+
 class ClientApp(ApplicationIOController):
     _startup_disabled = True
+    notifications = 0
+
+    def do_UnconfirmedCOVNotificationRequest(self, apdu):
+        self.notifications += 1
+
+    def do_ConfirmedCOVNotificationRequest(self, apdu):
+        self.notifications += 1
+        self.response(SimpleAckPDU(context=apdu))
 
 
 def _device_object(name, inst):
@@ -204,13 +249,14 @@ def _device_object(name, inst):
 class WirePair(object):
     """client (mac 1) and device (mac 2) on one controlled LAN, perfect delivery."""
 
-    def __init__(self):
+    def __init__(self, cov=False):
         self.wire = Wire()
         self.wire.auto = True
         self.lan = CtlNetwork(self.wire, "lan")
         self.client = ClientApp(_device_object("client", 1))
         _wire_up(self.client, self.client.localDevice, self.lan, 1)
-        self.device = DeviceApp(_device_object("device", 2))
+        self.cov = cov
+        self.device = (CovDeviceApp if cov else DeviceApp)(_device_object("device", 2))
         _wire_up(self.device, self.device.localDevice, self.lan, 2)
         self.dest = Address(2)
         self.transactions = 0
@@ -245,6 +291,29 @@ class WirePair(object):
         if bad is not None:
             return ("harness",) + bad
         return classify(resp)
+
+    def subscribe(self, objid, lifetime=None, confirmed=False, process=1):
+        """SubscribeCOV: new subscription or renewal (lifetime None / 0 = indefinite) -> classification"""
+        req = SubscribeCOVRequest(subscriberProcessIdentifier=process, monitoredObjectIdentifier=objid,
+                                  issueConfirmedNotifications=bool(confirmed))
+        if lifetime:
+            req.lifetime = lifetime
+        bad, resp = self._transact(req)
+        if bad is not None:
+            return ("harness",) + bad
+        return classify(resp)
+
+    def cancel(self, objid, process=1):
+        """SubscribeCOV without the two optional parameters: cancellation -> classification"""
+        req = SubscribeCOVRequest(subscriberProcessIdentifier=process, monitoredObjectIdentifier=objid)
+        bad, resp = self._transact(req)
+        if bad is not None:
+            return ("harness",) + bad
+        return classify(resp)
+
+    def live_subscriptions(self):
+        """number of subscriptions the device keeps at this instant (harness bookkeeping cross-check)"""
+        return sum(1 for _ in self.device.subscriptions())
 
     def read(self, objid, prop, array_index=None):
         """Returns (('ack',), Any) or (classification, None)"""
